@@ -110,7 +110,7 @@ def run_check(repo, chk: Check, tier, prefix):
     for name, insts in groups.items():
         results, ms, info, vac = [], 0, {}, 0
         for o in insts:
-            r, t, inf = discharge(o, timeout_ms=30000)
+            r, t, inf = discharge(o, timeout_ms=15000)
             ms += t
             if r == "discharged":
                 # cover: hypotheses must be satisfiable, else the instance is vacuous
